@@ -46,6 +46,7 @@ RULE = (
     "shuffled order; metric scores for every target-label subset; classification2d frames through "
     "PerceptionFrameResult.evaluate_frame. non-trivial = both sides non-empty with at least one shared camera; distinct = "
     "(family, uuid_first, n_est, n_gt, #same-uuid pairs class, #same-label pairs class)"
+    " Later additions: estimates stamped microseconds to tens of milliseconds off their ground truth; alias spellings of label names; random label policies."
 )
 ASSUMPTIONS = ["unique non-null uuids per side and camera", "labels are equal when their enum members are equal"]
 DECIDING = ["C11.tlr_calls_judged", "C11.generic_calls_judged", "ClassificationAccuracy.judged", "C11.summaries_judged", "C11.perfect_cases", "C11.frames", "C11.repeated_scorings"]
